@@ -114,18 +114,16 @@ static inline orc_bool orc_once_enter(OrcOnce *once, void **value) {
   }
 
   orc_once_mutex_lock ();
-  /* if the value was currently being initialized then check if we're the
-   * thread that is doing the initialization or not */
-  if (inited == 3) {
-    inited = __sync_val_compare_and_swap(&once->inited, 3, 3);
+  /* re-read the state under the mutex: whoever holds the mutex first and
+   * still sees 3 does the initialization, everybody else finds 1 here */
+  inited = __sync_val_compare_and_swap(&once->inited, 3, 3);
 
-    /* the other thread initialized the value in the meantime so
-     * we can just return here */
-    if (inited == 1) {
-      *value = once->value;
-      orc_once_mutex_unlock ();
-      return TRUE;
-    }
+  /* another thread initialized the value in the meantime so
+   * we can just return here */
+  if (inited == 1) {
+    *value = once->value;
+    orc_once_mutex_unlock ();
+    return TRUE;
   }
 
   return FALSE;
